@@ -95,6 +95,29 @@ class C06(Prop):
                     continue
                 yield Case('join', (kn, key, lkey, rkey, False, None if kn in ('join', 'antijoin') else missing,
                                     lp if kn != 'antijoin' else None, rp if kn != 'antijoin' else None, bs, l, r))
+            # presorted=True on inputs that are sorted by the key already (ragged rows included: the views still square up)
+            lk1, rk1 = (key, key) if key is not None else (lkey, rkey)
+            if lk1 is not None and rng.random() < 0.5:
+                import petl as etl
+                def carries(t, k):
+                    # rows too short to hold the key cells would get `missing` there when squared up, and stop being sorted
+                    ks = k if isinstance(k, tuple) else (k,)
+                    need = 1 + max((x if isinstance(x, int) else list(t[0]).index(x)) for x in ks)
+                    return [list(t[0])] + [list(x) for x in t[1:] if len(x) >= need]
+                try:
+                    ls = tuple(tuple(x) for x in etl.sort(carries(l, lk1), lk1))
+                    rs = tuple(tuple(x) for x in etl.sort(carries(r, rk1), rk1))
+                except Exception:
+                    ls = rs = None
+                if ls is not None:
+                    for kn in KINDS:
+                        if kn == 'antijoin' and any(len(x) != len(t[0]) for t in (l, r) for x in t[1:]):
+                            continue
+                        yield Case('join', (kn, key, lkey, rkey, True, None if kn in ('join', 'antijoin') else missing,
+                                            lp if kn != 'antijoin' else None, rp if kn != 'antijoin' else None, None, ls, rs))
+            # field names that are not text: the natural key is found by name, as with text names
+            if rng.random() < 0.3:
+                yield Case('intnames', (rng.choice(KINDS), l, r))
             if rng.random() < 0.2:
                 tabs = tuple(gen.freeze(gen.table(rng, maxrows=3, ncols=rng.choice([1, 2]), ragged=True))
                              for _ in range(rng.choice([1, 2, 3])))
@@ -110,8 +133,42 @@ class C06(Prop):
                             for kn in KINDS:
                                 yield Case('join', (kn, 'id', None, None, False, None, None, None, None, l, r))
 
+    def expand(self, case):
+        if case.op == 'intnames':
+            return Case('const_true', ('intnames',) + tuple(case.arg), dict(case.meta, orig='intnames'))
+        return case
+
+    def _intnames(self, kn, l, r):
+        """the same two tables with their field names replaced by numbers (shared names by the same number): the natural join
+        gives the same data rows, under the correspondingly numbered header"""
+        import petl as etl
+        names = sorted(set(l[0]) | set(r[0]))
+        # numbers that are valid positions in both tables, so that a name taken for a position would go unnoticed by an IndexError
+        num = {f: i for i, f in enumerate(reversed(names))}
+        rect = lambda t: [list(x) for x in t if len(x) == len(t[0])]   # noqa
+        l1, r1 = rect(l), rect(r)
+        l2 = [[num[f] for f in l1[0]]] + l1[1:]
+        r2 = [[num[f] for f in r1[0]]] + r1[1:]
+        fn = getattr(etl, kn)
+        try:
+            a = [tuple(x) for x in fn(l1, r1)]
+        except Exception as e:
+            a = type(e).__name__
+        try:
+            b = [tuple(x) for x in fn(l2, r2)]
+        except Exception as e:
+            b = type(e).__name__
+        if isinstance(a, str) or isinstance(b, str):
+            return a == b
+        return tuple(num[f] for f in a[0]) == b[0] and a[1:] == b[1:]
+
     def impl(self, case):
         import petl as etl
+        if case.op == 'const_true':
+            try:
+                return codec.t_bool(self._intnames(*case.arg[1:]))
+            except Exception as e:   # noqa
+                return obs_exc(e)
         if case.op == 'join':
             kn, key, lkey, rkey, pre, missing, lp, rp, bs, l, r = case.arg
             try:
@@ -130,6 +187,12 @@ class C06(Prop):
 
     def valid(self, case):
         try:
+            if case.op == 'const_true':
+                return case.arg[0] == 'intnames' and case.arg[1] in KINDS and all(
+                    len(t) >= 1 and len(t[0]) >= 1 and len(set(t[0])) == len(t[0]) and all(isinstance(f, str) for f in t[0])
+                    for t in case.arg[2:4])
+            if case.op == 'intnames':
+                return True
             tabs = case.arg[9:11] if case.op == 'join' else case.arg[2]
             for t in tabs:
                 if len(t) < 1 or len(t[0]) < 1 or not all(isinstance(f, str) for f in t[0]):
@@ -164,12 +227,14 @@ class C06(Prop):
             return False
 
     def spec(self, case, impl_obs, model_obs):
+        if case.op == 'const_true':
+            return impl_obs == codec.t_bool(True)
         if self.valid(case) and impl_obs[0] != 'li':
             return False      # inside the domain no join may raise (header-only sides included)
         return None
 
     def spec_case(self, case, impl_obs):
-        if not self.valid(case) or impl_obs[0] != 'li':
+        if case.op == 'const_true' or not self.valid(case) or impl_obs[0] != 'li':
             return None
         out = codec.uncanon(impl_obs)
         if case.op == 'join':
